@@ -167,3 +167,71 @@ WVEC_DEF(WVecD, WVItD, ItemD, g_ID, g_anonD)
   __CPROVER_requires(__CPROVER_is_fresh(self, sizeof(SRC)) && GH_SMALL && __CPROVER_is_fresh(callbackList, sizeof(CLT))) \
   __CPROVER_assigns(__CPROVER_object_whole(self)) \
   __CPROVER_ensures(self->callbackList == callbackList && self->itemList.len == 0 && !RECC(self) && self->itemListMutex.depth == 0)
+
+/* ================================================================== ScopedRemover<EventDispatcher / EventQueue> (scopedremover.h:48-192): same contracts;
+ * a record holds (event, handle) and must name the event the listener was registered for */
+#define RECD(r) ((r)->itemList.wpos >= 0)
+#define SRD_OK(r) (GH_OK && VOK((r)->itemList) && (r)->itemListMutex.depth == 0 && (RECD(r) ==> (g_ID.handle.p == g_H && g_H != NULL && g_created && (r)->dispatcher == g_att_ed && (r)->dispatcher != NULL && g_ID.event == g_att_ev)))
+#define LOOP_CONTRACT_SRD_reset__loop0 \
+  __CPROVER_assigns(__begin_L0.i, WGHOSTS) \
+  __CPROVER_loop_invariant(0 <= __begin_L0.i && __begin_L0.i <= self->itemList.len) \
+  __CPROVER_loop_invariant((RECD(self) && self->itemList.wpos < __begin_L0.i) ? (!g_att && g_removes_H == __CPROVER_loop_entry(g_removes_H) + 1) : (g_att == __CPROVER_loop_entry(g_att) && g_removes_H == __CPROVER_loop_entry(g_removes_H))) \
+  __CPROVER_decreases(self->itemList.len - __begin_L0.i)
+#define SRD_RESET_BODY \
+  __CPROVER_requires(__CPROVER_is_fresh(self, sizeof(SRD)) && g_removes_H < 900 && SRD_OK(self)) \
+  __CPROVER_assigns(self->itemList, self->itemListMutex.depth, WGHOSTS) \
+  __CPROVER_ensures(VOK(self->itemList) && self->itemListMutex.depth == 0 && self->itemList.len == 0 && self->dispatcher == __CPROVER_old(self->dispatcher)) \
+  __CPROVER_ensures(__CPROVER_old(self->itemList.wpos) >= 0 ? (!g_att && g_removes_H == __CPROVER_old(g_removes_H) + 1) : (g_att == __CPROVER_old(g_att) && g_removes_H == __CPROVER_old(g_removes_H)))
+#define CONTRACT_SRD_reset SRD_RESET_BODY
+#define CONTRACT_SRD_dtor SRD_RESET_BODY
+#define CONTRACT_SRD_setDispatcher \
+  __CPROVER_requires(__CPROVER_is_fresh(self, sizeof(SRD)) && GH_SMALL && __CPROVER_is_fresh(dispatcher_, sizeof(EDT)) && SRD_OK(self) && g_b0 == RECD(self)) \
+  __CPROVER_assigns(self->itemList, self->itemListMutex.depth, self->dispatcher, WGHOSTS) \
+  __CPROVER_ensures(SRD_OK(self) && self->dispatcher == dispatcher_) \
+  __CPROVER_ensures((g_b0 && __CPROVER_old(self->dispatcher) != dispatcher_) ? (!g_att && !RECD(self)) : (g_att == __CPROVER_old(g_att) && RECD(self) == g_b0))
+#define SRD_ADD_CONTRACT \
+  __CPROVER_requires(__CPROVER_is_fresh(self, sizeof(SRD)) && GH_SMALL && __CPROVER_is_fresh(event, sizeof(int)) && __CPROVER_is_fresh(listener, sizeof(Callback)) && __CPROVER_is_fresh(self->dispatcher, sizeof(EDT)) && SRD_OK(self) && VSMALL(self->itemList) && g_b0 == RECD(self)) \
+  __CPROVER_requires(RECD(self) ==> g_created) \
+  __CPROVER_assigns(self->itemList, self->itemListMutex.depth, g_created, g_att, g_att_cl, g_att_ed, g_att_ev, g_ID) \
+  __CPROVER_ensures(SRD_OK(self) && self->itemList.len == __CPROVER_old(self->itemList.len) + 1) \
+  __CPROVER_ensures((__CPROVER_return_value.p == g_H && g_H != NULL) ==> (RECD(self) && g_att && g_att_ed == self->dispatcher && g_att_ev == *event)) \
+  __CPROVER_ensures(g_b0 ==> RECD(self))
+#define CONTRACT_SRD_appendListener__Callback SRD_ADD_CONTRACT
+#define CONTRACT_SRD_prependListener__Callback SRD_ADD_CONTRACT
+#define CONTRACT_SRD_insertListener__Callback \
+  __CPROVER_requires(__CPROVER_is_fresh(before, sizeof(Handle))) \
+  SRD_ADD_CONTRACT
+#define CONTRACT_SRD_removeListener \
+  __CPROVER_requires(__CPROVER_is_fresh(self, sizeof(SRD)) && GH_SMALL && __CPROVER_is_fresh(event, sizeof(int)) && __CPROVER_is_fresh(self->dispatcher, sizeof(EDT)) && SRD_OK(self) && g_b0 == RECD(self) && g_b1 == g_att) \
+  __CPROVER_assigns(self->itemList, self->itemListMutex.depth, WGHOSTS) \
+  __CPROVER_ensures(SRD_OK(self)) \
+  __CPROVER_ensures((handle.p == g_H && g_H != NULL && g_b0 && g_b1 && *event == g_att_ev) ==> (__CPROVER_return_value && !g_att && !RECD(self))) \
+  __CPROVER_ensures(!(handle.p == g_H && g_H != NULL) ==> (g_att == g_b1 && RECD(self) == g_b0)) \
+  __CPROVER_ensures(((handle.p == g_H && g_H != NULL) && !g_b0) ==> (g_att == g_b1 && g_removes_H == __CPROVER_old(g_removes_H) && !__CPROVER_return_value))
+#define CONTRACT_SRD_ctor_move \
+  __CPROVER_requires(__CPROVER_is_fresh(self, sizeof(SRD)) && GH_SMALL && __CPROVER_is_fresh(other, sizeof(SRD)) && SRD_OK(other) && g_b0 == RECD(other)) \
+  __CPROVER_assigns(self->dispatcher, self->itemList, self->itemListMutex, other->itemList, other->itemListMutex.depth, WGHOSTS) \
+  __CPROVER_ensures(SRD_OK(self) && SRD_OK(other) && self->dispatcher == __CPROVER_old(other->dispatcher)) \
+  __CPROVER_ensures(RECD(self) == g_b0 && !RECD(other) && g_att == __CPROVER_old(g_att) && g_removes_H == __CPROVER_old(g_removes_H))
+#define CONTRACT_SRD_assign_move \
+  __CPROVER_requires(__CPROVER_is_fresh(self, sizeof(SRD)) && GH_SMALL && __CPROVER_is_fresh(other, sizeof(SRD)) && SRD_OK(self) && SRD_OK(other)) \
+  __CPROVER_requires(!(RECD(self) && RECD(other)) && g_b0 == RECD(self) && g_b1 == RECD(other)) \
+  __CPROVER_assigns(self->dispatcher, self->itemList, self->itemListMutex.depth, other->itemList, other->itemListMutex.depth, WGHOSTS) \
+  __CPROVER_ensures(SRD_OK(self) && SRD_OK(other) && __CPROVER_return_value == self && self->dispatcher == __CPROVER_old(other->dispatcher)) \
+  __CPROVER_ensures(g_b1 ==> (RECD(self) && g_att == __CPROVER_old(g_att))) \
+  __CPROVER_ensures(g_b0 ==> (!g_att || RECD(self) || RECD(other))) \
+  __CPROVER_ensures((!g_b0 && !g_b1) ==> g_att == __CPROVER_old(g_att))
+#define CONTRACT_SRD_swap \
+  __CPROVER_requires(__CPROVER_is_fresh(self, sizeof(SRD)) && __CPROVER_is_fresh(other, sizeof(SRD)) && SRD_OK(self) && SRD_OK(other) && !(RECD(self) && RECD(other))) \
+  __CPROVER_requires(g_b0 == RECD(self) && g_b1 == RECD(other)) \
+  __CPROVER_assigns(self->dispatcher, self->itemList, other->dispatcher, other->itemList) \
+  __CPROVER_ensures(SRD_OK(self) && SRD_OK(other) && RECD(self) == g_b1 && RECD(other) == g_b0) \
+  __CPROVER_ensures(self->dispatcher == __CPROVER_old(other->dispatcher) && other->dispatcher == __CPROVER_old(self->dispatcher))
+#define CONTRACT_SRD_ctor \
+  __CPROVER_requires(__CPROVER_is_fresh(self, sizeof(SRD))) \
+  __CPROVER_assigns(__CPROVER_object_whole(self)) \
+  __CPROVER_ensures(self->dispatcher == NULL && self->itemList.len == 0 && !RECD(self) && self->itemListMutex.depth == 0)
+#define CONTRACT_SRD_ctor1 \
+  __CPROVER_requires(__CPROVER_is_fresh(self, sizeof(SRD)) && __CPROVER_is_fresh(dispatcher, sizeof(EDT))) \
+  __CPROVER_assigns(__CPROVER_object_whole(self)) \
+  __CPROVER_ensures(self->dispatcher == dispatcher && self->itemList.len == 0 && !RECD(self) && self->itemListMutex.depth == 0)
